@@ -162,7 +162,7 @@ fn run_history(raw: &RawKey, cfg: &Cfg, other: &Cfg, rep: &mut Report) -> Result
     let mut model: BTreeMap<String, LTree> = BTreeMap::new();
     let bk = |env: &Env, v: usize, model: &mut BTreeMap<String, LTree>| -> Result<(), (String, String)> {
         let repo = es("open", env.open_ids())?;
-        _ = es("backup", backup_with(&repo, &MemSource::new("r", source(v)), &format!("s{v}"), T0 + 1000 + v as i64, &BackupOptions::default()))?;
+        _ = es("backup", backup_with(&repo, &MemSource::new("r", source(v)), &format!("s{v}"), T0 + 1000 + v as i64, &vkit::rep::bopts()))?;
         _ = model.insert(format!("s{v}"), model_tree("r", &source(v)));
         Ok(())
     };
